@@ -49,6 +49,19 @@ theorem div_mod_unique {f g q r : K[X]} (hg : g ≠ 0) (h : f = q * g + r)
   · rw [div_def, this.1, ← mul_assoc, ← C_mul, inv_mul_cancel₀ hlc, C_1, one_mul]
   · rw [mod_def, this.2]
 
+theorem modByMonic_modByMonic {G : K[X]} (hG : G.Monic) (a : K[X]) : (a %ₘ G) %ₘ G = a %ₘ G :=
+  (modByMonic_eq_self_iff hG).2 (degree_modByMonic_lt a hG)
+
+theorem mul_modByMonic_congr {G a a' b b' : K[X]} (h1 : a %ₘ G = a' %ₘ G)
+    (h2 : b %ₘ G = b' %ₘ G) : (a * b) %ₘ G = (a' * b') %ₘ G := by
+  rw [mul_modByMonic a b, h1, h2, ← mul_modByMonic]
+
+theorem pow_modByMonic_congr {G a a' : K[X]} (h : a %ₘ G = a' %ₘ G) (k : Nat) :
+    (a ^ k) %ₘ G = (a' ^ k) %ₘ G := by
+  induction k with
+  | zero => simp
+  | succ k ih => rw [pow_succ, pow_succ]; exact mul_modByMonic_congr ih h
+
 /-! ### `Σ qᵢ·gᵢ` -/
 
 /-- `Σ qᵢ·gᵢ` -/
@@ -213,7 +226,7 @@ theorem quoRem_step_nofit {gs : List (UPoly α)} (hgs : ∀ g ∈ gs, WF L g ∧
     rw [hp', self_sub_monomial_natDegree_leadingCoeff]
     exact degree_eraseLead_lt hp0
 
-/-- partial correctness of `quoRemLoop` (any fuel): the loop invariant
+/-- correctness of `quoRemLoop` whenever it returns (any fuel): the loop invariant
     `p + Σ qᵢgᵢ + r` is preserved, everything stays well-formed and the remainder only receives
     terms of degree below every divisor. -/
 theorem quoRemLoop_spec {gs : List (UPoly α)} (hgs : ∀ g ∈ gs, WF L g ∧ toPoly L g ≠ 0)
@@ -594,6 +607,277 @@ theorem newIdeal_total {gens : List (UPoly α)} (hgens : ∀ g ∈ gens, WF L g)
     obtain ⟨d, hd⟩ := gcd_total L (fun x hx => hgens x (List.mem_cons_of_mem _ hx))
       (hgens f List.mem_cons_self)
     exact ⟨normalize F d, by simp [newIdeal, hd]⟩
+
+/-! ### `Ideal.Reduce`: remainder modulo a monic polynomial -/
+
+theorem degree_lt_of_ld_lt {f g : UPoly α} (hf : WF L f) (hg : WF L g) (h : ld f < ld g) :
+    (toPoly L f).degree < (toPoly L g).degree := by
+  apply degree_lt_degree
+  rwa [natDegree_toPoly L hf, natDegree_toPoly L hg]
+
+theorem reduceLoop_spec {g : UPoly α} (hg : WF L g) (hmon : (toPoly L g).Monic)
+    (hdeg : 1 ≤ ld g) (fuel : Nat) (f : UPoly α) (hf : WF L f) (hfuel : ld f < fuel) :
+    ∃ f', reduceLoop F g fuel f = some f' ∧ WF L f' ∧
+      toPoly L f' = toPoly L f %ₘ toPoly L g ∧ ld f' < ld g := by
+  induction fuel generalizing f with
+  | zero => omega
+  | succ fuel ih =>
+    rw [reduceLoop]
+    split
+    · next hge =>
+      have hlcv := lc_valid L hf.1
+      have hwf := subShiftScale_wf L hf hg.1 (ld f - ld g) hlcv
+      have hP := toPoly_subShiftScale L hf hg.1 (ld f - ld g) hlcv
+      generalize subShiftScale F f g (ld f - ld g) (lc F f) = f1 at hwf hP ⊢
+      rw [embed_lc L hf, ld_eq_natDegree L hf, ld_eq_natDegree L hg] at hP
+      have hnd : (toPoly L g).natDegree ≤ (toPoly L f).natDegree := by
+        rw [natDegree_toPoly L hf, natDegree_toPoly L hg]; exact hge
+      have hfd : 1 ≤ (toPoly L f).natDegree := by
+        rw [natDegree_toPoly L hf]; omega
+      have hf0 : toPoly L f ≠ 0 := by
+        intro h0; rw [h0, natDegree_zero] at hfd; omega
+      have hdd : (toPoly L g).degree ≤ (toPoly L f).degree := by
+        rw [degree_eq_natDegree hf0, degree_eq_natDegree hmon.ne_zero]
+        exact_mod_cast hnd
+      have hlt := div_wf_lemma ⟨hdd, hf0⟩ hmon
+      rw [mul_comm (toPoly L g), ← hP] at hlt
+      have hld : ld f1 < ld f := by
+        rw [ld_eq_natDegree L hwf, ld_eq_natDegree L hf]
+        by_cases h0 : toPoly L f1 = 0
+        · rw [h0, natDegree_zero]; omega
+        · exact natDegree_lt_natDegree h0 hlt
+      obtain ⟨f', h1, h2, h3, h4⟩ := ih _ hwf (by omega)
+      refine ⟨f', h1, h2, ?_, h4⟩
+      rw [h3, hP, sub_modByMonic, mul_self_modByMonic hmon, sub_zero]
+    · next hlt =>
+      refine ⟨f, rfl, hf, ?_, by omega⟩
+      rw [(modByMonic_eq_self_iff hmon).2 (degree_lt_of_ld_lt L hf hg (by omega))]
+
+/-- `reduce` for a monic modulus of degree ≥ 1 -/
+theorem reduce_spec {g : UPoly α} (hg : WF L g) (hmon : (toPoly L g).Monic)
+    (hdeg : 1 ≤ (toPoly L g).natDegree) {f : UPoly α} (hf : WF L f) :
+    ∃ f', reduce F g f = some f' ∧ WF L f' ∧ toPoly L f' = toPoly L f %ₘ toPoly L g ∧
+      (toPoly L f').degree < (toPoly L g).degree := by
+  rw [natDegree_toPoly L hg] at hdeg
+  obtain ⟨f', h1, h2, h3, h4⟩ := reduceLoop_spec L hg hmon hdeg (f.length + 1) f hf
+    (by unfold ld; omega)
+  refine ⟨f', ?_, h2, h3, degree_lt_of_ld_lt L h2 hg h4⟩
+  unfold reduce
+  rw [if_neg (by omega)]
+  exact h1
+
+theorem reduce_unit {g : UPoly α} (h : ld g = 0) (f : UPoly α) : reduce F g f = some (zero F) := by
+  unfold reduce
+  rw [if_pos h]
+
+/-- `reduce` is the remainder modulo every monic modulus (degree 0 included: `g = 1`) -/
+theorem reduce_monic {g : UPoly α} (hg : WF L g) (hmon : (toPoly L g).Monic) {f : UPoly α}
+    (hf : WF L f) :
+    ∃ f', reduce F g f = some f' ∧ WF L f' ∧ toPoly L f' = toPoly L f %ₘ toPoly L g := by
+  by_cases hd : (toPoly L g).natDegree = 0
+  · refine ⟨zero F, reduce_unit (by rw [ld_eq_natDegree L hg]; exact hd) f, wf_zero L, ?_⟩
+    have : toPoly L g = 1 := hmon.natDegree_eq_zero.1 hd
+    rw [this, modByMonic_one, toPoly_zero]
+  · obtain ⟨f', h1, h2, h3, -⟩ := reduce_spec L hg hmon (by omega) hf
+    exact ⟨f', h1, h2, h3⟩
+
+/-! ### quotient rings -/
+
+/-- `R` is the quotient ring `K[X]/(g)` for a well-formed monic `g` of degree ≥ 1 -/
+structure IsQuot (R : Ring α) (L : Lawful R.F K) (g : UPoly α) : Prop where
+  modulus_eq : R.modulus = some g
+  wf : WF L g
+  monic : (toPoly L g).Monic
+  deg : 1 ≤ (toPoly L g).natDegree
+
+section Quot
+variable {R : Ring α} {L : Lawful R.F K} {g : UPoly α} (Q : IsQuot R L g)
+include Q
+
+theorem reduceIn_spec {f : UPoly α} (hf : WF L f) :
+    ∃ f', reduceIn R f = some f' ∧ WF L f' ∧ toPoly L f' = toPoly L f %ₘ toPoly L g ∧
+      (toPoly L f').degree < (toPoly L g).degree := by
+  unfold reduceIn
+  rw [Q.modulus_eq]
+  exact reduce_spec L Q.wf Q.monic Q.deg hf
+
+theorem times_spec {f h : UPoly α} (hf : AllValid L f) (hh : AllValid L h) :
+    ∃ r, times R f h = some r ∧ WF L r ∧
+      toPoly L r = (toPoly L f * toPoly L h) %ₘ toPoly L g ∧
+      (toPoly L r).degree < (toPoly L g).degree := by
+  unfold times
+  rw [← toPoly_mulNoReduce L hf hh]
+  exact reduceIn_spec Q (mulNoReduce_wf L hf hh)
+
+end Quot
+
+/-- the accumulation loop of the constructors: coefficient `i` of the list goes to degree `n+i` -/
+theorem ofCoefs_fold_spec (cs : List α) (n : Nat) (acc : UPoly α) (hcs : AllValid L cs)
+    (hacc : WF L acc) (hhi : ∀ i, n ≤ i → (toPoly L acc).coeff i = 0) :
+    WF L (foldCoefsFrom n cs acc fun acc d c => if F.isZero c then acc else setCoef F acc d c) ∧
+      toPoly L (foldCoefsFrom n cs acc
+        fun acc d c => if F.isZero c then acc else setCoef F acc d c) =
+        toPoly L acc + X ^ n * toPoly L cs := by
+  induction cs generalizing n acc with
+  | nil => simp [hacc]
+  | cons c t ih =>
+    rw [allValid_cons] at hcs
+    rw [foldCoefsFrom_cons]
+    have hstep : WF L (if F.isZero c then acc else setCoef F acc n c) ∧
+        toPoly L (if F.isZero c then acc else setCoef F acc n c) =
+          toPoly L acc + monomial n (L.embed c) := by
+      split
+      · next hz => rw [(L.isZero_iff c hcs.1).1 hz]; simp [hacc]
+      · refine ⟨setCoef_wf L hacc n hcs.1, ?_⟩
+        rw [toPoly_setCoef L hacc n hcs.1, ← coeff_toPoly_coef, hhi n (le_refl n), sub_zero]
+    obtain ⟨h1, h2⟩ := ih (n + 1) _ hcs.2 hstep.1 (by
+      intro i hi
+      rw [hstep.2, coeff_add, hhi i (by omega), coeff_monomial, if_neg (by omega), add_zero])
+    refine ⟨h1, ?_⟩
+    rw [h2, hstep.2, toPoly_cons, ← C_mul_X_pow_eq_monomial, pow_succ]
+    ring
+
+/-- the unreduced polynomial built by `Polynomial(coefs)` -/
+theorem ofCoefs_unreduced (cs : List α) (hcs : AllValid L cs) :
+    WF L (foldCoefs cs (zero F) fun acc d c => if F.isZero c then acc else setCoef F acc d c) ∧
+      toPoly L (foldCoefs cs (zero F)
+        fun acc d c => if F.isZero c then acc else setCoef F acc d c) = toPoly L cs := by
+  have := ofCoefs_fold_spec L cs 0 (zero F) hcs (wf_zero L) (by intro i _; rw [toPoly_zero]; simp)
+  rw [foldCoefs_eq]
+  refine ⟨this.1, ?_⟩
+  rw [this.2, toPoly_zero]; simp
+
+section Quot
+variable {R : Ring α} {L : Lawful R.F K} {g : UPoly α} (Q : IsQuot R L g)
+include Q
+
+theorem ofCoefs_spec {cs : List α} (hcs : AllValid L cs) :
+    ∃ r, ofCoefs R cs = some r ∧ WF L r ∧ toPoly L r = toPoly L cs %ₘ toPoly L g ∧
+      (toPoly L r).degree < (toPoly L g).degree := by
+  obtain ⟨h1, h2⟩ := ofCoefs_unreduced L cs hcs
+  unfold ofCoefs
+  rw [← h2]
+  exact reduceIn_spec Q h1
+
+theorem one_modByMonic : (1 : K[X]) %ₘ toPoly L g = 1 := by
+  rw [modByMonic_eq_self_iff Q.monic, degree_one]
+  have h0 : toPoly L g ≠ 0 := Q.monic.ne_zero
+  rw [degree_eq_natDegree h0]
+  exact_mod_cast Q.deg
+
+/-- square-and-multiply; `out` must already be reduced (it is returned unchanged for `n = 0`) -/
+theorem powLoop_spec (fuel n : Nat) (hn : n < 2 ^ fuel) (out b : UPoly α) (hout : WF L out)
+    (hb : AllValid L b) (hred : (toPoly L out).degree < (toPoly L g).degree) :
+    ∃ r, powLoop R (fuel + 1) n out b = some r ∧ WF L r ∧
+      toPoly L r = (toPoly L out * toPoly L b ^ n) %ₘ toPoly L g ∧
+      (toPoly L r).degree < (toPoly L g).degree := by
+  induction fuel generalizing n out b with
+  | zero =>
+    have : n = 0 := by simpa using hn
+    subst this
+    refine ⟨out, by simp [powLoop], hout, ?_, hred⟩
+    rw [pow_zero, mul_one, (modByMonic_eq_self_iff Q.monic).2 hred]
+  | succ fuel ih =>
+    rw [powLoop]
+    split
+    · next h0 =>
+      subst h0
+      refine ⟨out, rfl, hout, ?_, hred⟩
+      rw [pow_zero, mul_one, (modByMonic_eq_self_iff Q.monic).2 hred]
+    · next h0 =>
+      obtain ⟨b2, hb2, hb2w, hb2e, -⟩ := times_spec Q hb hb
+      have hn2 : n / 2 < 2 ^ fuel := by
+        rw [Nat.div_lt_iff_lt_mul (by norm_num), ← pow_succ]; exact hn
+      by_cases hodd : n % 2 = 1
+      · obtain ⟨o, ho, how, hoe, hod⟩ := times_spec Q hout.1 hb
+        simp only [if_pos hodd, ho, hb2]
+        obtain ⟨r, h1, h2, h3, h4⟩ := ih (n / 2) hn2 o b2 how hb2w.1 hod
+        refine ⟨r, h1, h2, ?_, h4⟩
+        rw [h3, hoe, hb2e]
+        have hk : toPoly L out * toPoly L b ^ n =
+            (toPoly L out * toPoly L b) * (toPoly L b * toPoly L b) ^ (n / 2) := by
+          conv_lhs => rw [← Nat.div_add_mod n 2, hodd]
+          rw [pow_succ, pow_mul]; ring
+        rw [hk]
+        exact mul_modByMonic_congr (modByMonic_modByMonic Q.monic _)
+          (pow_modByMonic_congr (modByMonic_modByMonic Q.monic _) _)
+      · have heven : n % 2 = 0 := by omega
+        simp only [if_neg hodd, hb2]
+        obtain ⟨r, h1, h2, h3, h4⟩ := ih (n / 2) hn2 out b2 hout hb2w.1 hred
+        refine ⟨r, h1, h2, ?_, h4⟩
+        rw [h3, hb2e]
+        conv_rhs => rw [← Nat.div_add_mod n 2, heven, add_zero, pow_mul]
+        exact mul_modByMonic_congr rfl
+          (pow_modByMonic_congr (by rw [modByMonic_modByMonic Q.monic, sq]) _)
+
+/-- `Pow`: fuel 70 suffices for every exponent below `2^69` (in particular every `uint`) -/
+theorem pow_spec {f : UPoly α} (hf : AllValid L f) {n : Nat} (hn : n < 2 ^ 69) :
+    ∃ r, pow R f n = some r ∧ WF L r ∧ toPoly L r = (toPoly L f ^ n) %ₘ toPoly L g ∧
+      (toPoly L r).degree < (toPoly L g).degree := by
+  have hone : AllValid L [R.F.one] := by
+    intro c hc; rw [List.mem_singleton] at hc; subst hc; exact L.one_valid
+  obtain ⟨o, ho, how, hoe, hod⟩ := ofCoefs_spec Q hone
+  rw [toPoly_singleton, L.embed_one, C_1, one_modByMonic Q] at hoe
+  obtain ⟨r, h1, h2, h3, h4⟩ := powLoop_spec Q 69 n hn o f how hf hod
+  refine ⟨r, ?_, h2, ?_, h4⟩
+  · unfold pow; rw [ho]; exact h1
+  · rw [h3, hoe, one_mul]
+
+theorem ofNats_spec (hofNat : ∀ n, L.valid (R.F.ofNat n)) (cs : List Nat) :
+    ∃ r, ofNats R cs = some r ∧ WF L r ∧
+      toPoly L r = toPoly L (cs.map R.F.ofNat) %ₘ toPoly L g ∧
+      (toPoly L r).degree < (toPoly L g).degree := by
+  unfold ofNats
+  apply ofCoefs_spec Q
+  intro c hc
+  rw [List.mem_map] at hc
+  obtain ⟨n, -, rfl⟩ := hc
+  exact hofNat n
+
+theorem ofInts_spec (hofInt : ∀ n, L.valid (R.F.ofInt n)) (cs : List Int) :
+    ∃ r, ofInts R cs = some r ∧ WF L r ∧
+      toPoly L r = toPoly L (cs.map R.F.ofInt) %ₘ toPoly L g ∧
+      (toPoly L r).degree < (toPoly L g).degree := by
+  unfold ofInts
+  apply ofCoefs_spec Q
+  intro c hc
+  rw [List.mem_map] at hc
+  obtain ⟨n, -, rfl⟩ := hc
+  exact hofInt n
+
+end Quot
+
+/-- the polynomial with the given list of coefficients (index = degree) -/
+noncomputable def polyOfList : List K → K[X]
+  | [] => 0
+  | c :: t => C c + X * polyOfList t
+
+theorem toPoly_eq_polyOfList (f : UPoly α) : toPoly L f = polyOfList (f.map L.embed) := by
+  induction f with
+  | nil => rfl
+  | cons c t ih => simp [polyOfList, ih]
+
+theorem coeff_polyOfList (cs : List K) (i : Nat) : (polyOfList cs).coeff i = cs.getD i 0 := by
+  induction cs generalizing i with
+  | nil => simp [polyOfList]
+  | cons c t ih =>
+    cases i with
+    | zero => simp [polyOfList]
+    | succ i => simp [polyOfList, coeff_C_succ, ih]
+
+/-! ### `Equal` decides equality of residue classes on reduced representatives -/
+
+theorem equal_iff_dvd_sub {g r1 r2 : UPoly α} (h1 : WF L r1) (h2 : WF L r2)
+    (d1 : (toPoly L r1).degree < (toPoly L g).degree)
+    (d2 : (toPoly L r2).degree < (toPoly L g).degree) :
+    equal F r1 r2 = true ↔ toPoly L g ∣ toPoly L r1 - toPoly L r2 := by
+  rw [equal_iff L h1 h2]
+  constructor
+  · intro h; rw [h, sub_self]; exact dvd_zero _
+  · intro h
+    have := eq_zero_of_dvd_of_degree_lt h
+      (lt_of_le_of_lt (degree_sub_le _ _) (max_lt d1 d2))
+    exact sub_eq_zero.1 this
 
 end UPoly
 end Algobra
